@@ -81,6 +81,16 @@ CHECKS.update({
    note="Trusted: catch_unwind, the supervisor's stall detection (10 s), TLC for the automaton. Bounded input length; 4 KiB names only by hand-picked samples.",
    technique="TLA+ acceptance automaton model-checked with TLC + TLC validation of supervised exploration traces (exhaustive short adversarial inputs)"),
 })
+CHECKS.update({
+ "C08": dict(level=MC, ref="DESIGN.md 5/C08",
+   text="Traversal.tla is the documented traversal as a nondeterministic DFS state machine (Enter, Yield, SkipDepth, SkipFilter, Defer, EmitDeferred, Leave, LoopError; sibling order free unless a sort is set) plus the declarative ValidOrder / Expected characterisation; MC_Traversal explores the machine over all 4306 trees of names {a,b} x depth 2 with <= 2 links (incl. cycles, dangling) x roots x a rotating part of the 960 option combinations and checks termination, bag = Selected, parent/content order, sibling order, LinkLooping exactly on followed cycles, machine => ValidOrder and tightness of the predicate. The real iterator runs on Memfs AND on std::fs-materialised trees with descriptor caps {1,2,50} (hook) for every tree x root x option sample plus random larger trees; TLC accepts each yielded sequence iff ValidOrder holds, requires sorted runs to be identical across caps and backends, and checks the listing helpers against their definition and exists/is_dir/is_file.",
+   note="Trusted: TLC, Json module, harness (name ranks and 'sorted' flags are computed there: TLC cannot order strings), tmpfs. Unsettled (reported, not judged): follow through a chain of links on Stdfs.",
+   technique="TLA+ traversal state machine model-checked with TLC + TLC validation of real iterator output against the machine's declarative characterisation"),
+ "C20": dict(level=MC, ref="DESIGN.md 5/C20",
+   text="VfsAssert.tla gives every checking macro its predicate and every acting macro its operation (the Vfs reference operator) and post-condition; MC_VfsAssert runs the acting macros as the transition relation over the reference filesystem and checks soundness/completeness laws in every reachable state for all macros and arguments (exactly one of x!/no_x! panics, no vacuous pass, panic iff post-condition fails). The real macros are invoked under catch_unwind on every BFS-reached state of the real Memfs x every path/pair/data and on std::fs-materialised trees; TLC judges panicked <=> ~predicate, operation performed, message names macro and path.",
+   note="Trusted: TLC, Json module, harness (message flags computed there), catch_unwind. 9 marked DECISIONS where the macro rustdoc is silent. One open finding (KF-C20-MSG-mkdir).",
+   technique="TLA+ oracle spec model-checked with TLC + TLC validation of macro outcomes on exhaustively reached real states"),
+})
 NOT_YET = {}
 
 def main():
